@@ -19,7 +19,8 @@ RULE_TEXT = (
     "Exhaustive part: tree q{a{x{k}},ab,a_b{x},aa} and tree a{a{a},ab,b{a,ba}} (the root's name recurs further down) x every "
     "alias map over subsets of their modules x spacing present/absent, plus for every alias map a second and third "
     "visualize() call on the same architecture (same aliased modules with other texts; one alias fewer), each call judged "
-    "on its own. Random part also draws root names from the sibling pool and 1-2 further calls on the same architecture. Random part: Hypothesis trees with prefix-colliding siblings (a few names "
+    "on its own, and a map whose alias texts are module names themselves (a module's own full name - an identity alias -, its last "
+    "component, the name of another module). Random part also draws root names from the sibling pool and 1-2 further calls on the same architecture. Random part: Hypothesis trees with prefix-colliding siblings (a few names "
     "contain '+', '(' as file-system derived module names can), alias maps over random subsets incl. nested aliased "
     "modules, alias values with dots and regex metacharacters, optional spacing, extra drawing kwargs, and aliases for "
     "non-existent modules. Oracle: models.label_expected (most specific aliased ancestor-or-self by dotted components); "
@@ -163,6 +164,14 @@ def exh_shard(arg, stt, deadline) -> None:
                 if spacing is None:
                     spec["node_order"] = list(reversed(tree))  # children before their parents
                 stt.record(spec, check_case(spec), enumerated=True, sample=(mask % 97 == 5 and spacing is None))
+            if aliases:
+                # degenerate alias texts (round 8): every second aliased module is "renamed" to its own full name, the others
+                # to the name of another module of the tree / to their own last component - the most specific aliased module
+                # still decides, whatever its alias text looks like
+                keys = list(aliases)
+                own = {k: (k if j % 2 == 0 else (tree[(tree.index(k) + 1) % n] if j % 4 == 1 else k.rsplit(".", 1)[-1])) for j, k in enumerate(keys)}
+                spec = {"tree": tree, "aliases": own, "spacing": None, "extra": {}}
+                stt.record(spec, check_case(spec), enumerated=True, sample=(mask % 61 == 9))
             # the same architecture drawn a second time with other alias texts for the same modules, and a third time
             # with one alias fewer
             if aliases:
@@ -177,7 +186,21 @@ def exh_shard(arg, stt, deadline) -> None:
 def alias_maps(draw, tree):
     keys = draw(st.lists(st.sampled_from(tree), min_size=1, max_size=5, unique=True))
     vals = draw(st.lists(st.sampled_from(ALIAS_VALUES + ["", "q", "a"] + TEMPLATE_LIKE), min_size=len(keys), max_size=len(keys)))
-    return dict(zip(keys, vals))
+    out = dict(zip(keys, vals))
+    if draw(st.integers(0, 3)) == 0:
+        # alias texts that are module names themselves: the module's own name (an identity alias), its last component,
+        # its parent's name, the name of some other module
+        for k in keys:
+            how = draw(st.integers(0, 5))
+            if how == 0:
+                out[k] = k
+            elif how == 1:
+                out[k] = k.rsplit(".", 1)[-1]
+            elif how == 2:
+                out[k] = k.rsplit(".", 1)[0]
+            elif how == 3:
+                out[k] = draw(st.sampled_from(tree))
+    return out
 
 
 @st.composite
